@@ -1,0 +1,94 @@
+//! Verification hooks.
+//!
+//! Only compiled with `--features verif`. With the feature on but no hook
+//! table installed on the current thread, every hook is a no-op, so behaviour
+//! is unchanged. The hook table is thread-local: an external checker installs
+//! it on the thread that runs a single-threaded runtime and thereby decides
+//! (a) whether the calling task yields at a named scheduling point and
+//! (b) which value a padding-size draw returns.
+
+use std::cell::RefCell;
+use std::future::Future;
+use std::pin::Pin;
+use std::rc::Rc;
+use std::sync::{Arc, RwLock};
+use std::task::{Context, Poll};
+
+/// Decisions an external checker can take at instrumentation sites.
+pub trait Hooks {
+    /// Called at a named scheduling point; `true` makes the calling task
+    /// yield once (it is re-queued behind every other runnable task) and the
+    /// hook is consulted again when the task resumes.
+    fn point(&self, name: &'static str) -> bool;
+
+    /// Called where a padding size is drawn from `min..=max`; `Some(v)`
+    /// overrides the random draw.
+    fn draw(&self, _min: i64, _max: i64) -> Option<i64> {
+        None
+    }
+}
+
+thread_local! {
+    static HOOKS: RefCell<Option<Rc<dyn Hooks>>> = const { RefCell::new(None) };
+}
+
+/// Install (or remove) the hook table of the current thread; returns the old one.
+pub fn install(hooks: Option<Rc<dyn Hooks>>) -> Option<Rc<dyn Hooks>> {
+    HOOKS.with(|h| std::mem::replace(&mut *h.borrow_mut(), hooks))
+}
+
+fn current() -> Option<Rc<dyn Hooks>> {
+    HOOKS.try_with(|h| h.borrow().clone()).ok().flatten()
+}
+
+struct YieldOnce(bool);
+
+impl Future for YieldOnce {
+    type Output = ();
+    fn poll(mut self: Pin<&mut Self>, cx: &mut Context<'_>) -> Poll<()> {
+        if self.0 {
+            Poll::Ready(())
+        } else {
+            self.0 = true;
+            cx.waker().wake_by_ref();
+            Poll::Pending
+        }
+    }
+}
+
+/// Named scheduling point.
+pub async fn point(name: &'static str) {
+    loop {
+        let yield_now = match current() {
+            Some(h) => h.point(name),
+            None => false,
+        };
+        if !yield_now {
+            return;
+        }
+        YieldOnce(false).await;
+    }
+}
+
+/// Padding-size draw override.
+pub fn draw(min: i64, max: i64) -> Option<i64> {
+    current().and_then(|h| h.draw(min, max))
+}
+
+type SyncHook = Arc<dyn Fn(&'static str) + Send + Sync>;
+
+static SYNC_HOOK: RwLock<Option<SyncHook>> = RwLock::new(None);
+
+/// Install (or remove) the process-wide synchronous hook.
+pub fn install_sync(hook: Option<SyncHook>) {
+    *SYNC_HOOK.write().unwrap() = hook;
+}
+
+/// Named synchronous point (blocking code such as file loading); the
+/// process-wide hook, if any, runs on the calling thread.
+pub fn sync_point(name: &'static str) {
+    let hook = SYNC_HOOK.read().unwrap().clone();
+    if let Some(h) = hook {
+        h(name);
+    }
+}
